@@ -346,7 +346,10 @@ def imo(x):
 
 
 def casrn(x):
-    # compact presentation used by the library: digits with the two hyphens, e.g. 7732-18-5
+    # compact presentation used by the library: digits with the two hyphens, e.g. 7732-18-5; a number written without any
+    # hyphen is the same number (the hyphens only group the last three digits as 2 + 1)
+    if '-' not in x:
+        x = x[:-3] + '-' + x[-3:-1] + '-' + x[-1:]
     parts = x.split('-')
     if len(parts) != 3:
         raise Reject()
